@@ -292,6 +292,11 @@ class UFunc(Model):
                 vals.append(a.r)
             else:
                 vals.append(rat(a))
+        import inspect
+        if name in NUMERIC and len(vals) != len(inspect.signature(NUMERIC[name]).parameters):
+            raise Raised("TypeError", None, "np.%s() takes %d positional arguments, %d given" % (name, len(inspect.signature(NUMERIC[name]).parameters), len(vals)))
+        if name in PRED and len(vals) != 2:
+            raise Raised("TypeError", None, "np.%s() takes 2 positional arguments" % name)
         if name in NUMERIC:
             res = NUMERIC[name](*vals)
             dtype = "float64"
@@ -319,6 +324,20 @@ class UFunc(Model):
         return RawV(res, dtype)
 
 
+def OUTER(x, y):
+    """the outer product of two symbolic 1-d buffers, as a symbol that is bilinear in constant factors: outer(c*A, d*B) = c*d*outer(A, B)"""
+    def split(r):
+        syms = sorted((s_ for s_ in (r.n.symbols() | r.d.symbols()) if isinstance(s_, str) and not s_.startswith("k_")), key=str)
+        if len(syms) != 1:
+            raise Unsupported("outer product of %r" % (r,))
+        coeff = r / rat(Poly.sym(syms[0]))
+        if any(isinstance(s_, str) and not s_.startswith("k_") for s_ in (coeff.n.symbols() | coeff.d.symbols())):
+            raise Unsupported("outer product of %r" % (r,))
+        return syms[0], coeff
+    (a, ca), (b, cb) = split(x), split(y)
+    return rat(Poly.sym(Fn("outer", a, b))) * ca * cb
+
+
 class UMethod(Model):
     """np.<ufunc>.reduce / .accumulate: numpy offers them to __array_ufunc__ with method="reduce"/"accumulate"; an object that answers
     NotImplemented makes numpy raise TypeError (the operation is refused)"""
@@ -344,6 +363,8 @@ class UMethod(Model):
             for i in range(1, a.shape[0]):
                 acc = acc + a[i].r if uf.__name__ == "add" else acc * a[i].r
             return RawV(acc, "float64", a.shape[1:])
+        if self.method == "outer" and uf.__name__ == "multiply" and len(args) == 2 and isinstance(args[1], RawV) and not isinstance(args[1].r, tuple):
+            return RawV(OUTER(a.r, args[1].r), "float64", a.shape + args[1].shape)
         raise Unsupported("np.%s.%s is not in the model" % (uf.__name__, self.method))
 
 
@@ -637,8 +658,9 @@ def check_numpy_stack(run, tree, only=None):
         run.unresolved(construct, wn.where(), "cannot fold: %s" % e)
     if only == ("powers",):
         return
+    NO_UNIT = "no single unit can label the result (its elements are a length, an area, a volume): the call must be refused"
     for uf, meth, want in (("multiply", "reduce", lambda el: el[0] * el[1] * el[2] * km ** 3), ("add", "reduce", lambda el: (el[0] + el[1] + el[2]) * km),
-                           ("multiply", "accumulate", None), ("multiply", "outer", None), ("add", "at", None)):
+                           ("multiply", "accumulate", NO_UNIT), ("multiply", "outer", lambda el: rat(Poly.sym(Fn("outer", "A", "A"))) * km * km), ("add", "at", None)):
         construct = ARRAY_Q + "[np.%s.%s(a [m])]" % (uf, meth)
         try:
             hk = stack_hooks(tree)
@@ -646,8 +668,13 @@ def check_numpy_stack(run, tree, only=None):
             el = [rat(Poly.sym("A[%d]" % i)) for i in range(3)]
             try:
                 r = getattr(hk["ext"]["numpy." + uf], meth)(*([a, a] if meth == "outer" else [a]))
-                got = phys(r)
-                ok, detail = got == want(el), "denotes %r (required %r)" % (got, want(el))
+                if want is None:
+                    raise Unsupported("np.%s.%s is accepted; the model does not say what it must compute" % (uf, meth))
+                if isinstance(want, str):
+                    ok, detail = False, "returns %r; %s" % (phys(r) if isinstance(r, PyObj) else r, want)
+                else:
+                    got = phys(r)
+                    ok, detail = got == want(el), "denotes %r (required %r)" % (got, want(el))
             except (Raised, ProgramRaised) as e:
                 ok, detail = True, "refused (%s)" % getattr(e, "name", e)
             run.ob(construct, ok, wn.where(), detail, "the product of n lengths is labelled as a length")
